@@ -52,7 +52,23 @@ def r1_counter(ctx, prog):
         ctx.analysed(f)
         o = Outcomes(f, prog, cenv={}).go()
         r.paths += len(o.outcomes)
-        bad = [oc for oc in o.outcomes if oc['ret'] not in ('handleCounter', 'CK_INVALID_HANDLE') and not re.fullmatch(r'operator->\(.*\)\.second', oc['ret'] or '')]
+        def registered_value(v):
+            return v in ('handleCounter', 'CK_INVALID_HANDLE') or bool(re.fullmatch(r'operator->\(.*\)\.second', v or ''))
+
+        def filled_by_helper(v):
+            # a local handed by reference to a file-local helper: fine if everything the helper stores there is the registered handle or CK_INVALID_HANDLE
+            for c in calls(f['body']):
+                q = c.get('callee') or ''
+                gs = [g for g in prog.fns(q) if not g.get('class') and g['file'] == f['file']] if q and '::' not in q else []
+                if len(gs) != 1:
+                    continue
+                for i, a in enumerate(c.get('args', [])):
+                    if a is not None and a.get('k') == 'Var' and a['name'] == v and i < len(gs[0]['params']) and '&' in (gs[0]['params'][i].get('type') or ''):
+                        pn = gs[0]['params'][i]['var']['name']
+                        ws = [canon(n['b']) for n in walk(gs[0]['body']) if n.get('k') == 'Assign' and n['a'].get('k') == 'Var' and n['a']['name'] == pn]
+                        return bool(ws) and all(registered_value(w) for w in ws)
+            return False
+        bad = [oc for oc in o.outcomes if not registered_value(oc['ret']) and not filled_by_helper(oc['ret'])]
         bad += [oc for oc in o.outcomes if oc['ret'] == 'handleCounter' and not any(e[0] == 'call' and e[1] == 'operator[]' and e[2][:2] == ('handles', '++handleCounter') for e in oc['events'])]
         if bad:
             r.violation(name, 'returned handle', 'a path returns %s, which is neither the freshly incremented counter nor the handle already registered for this object' % bad[0]['ret'], file=f['file'], line=bad[0]['line'], path=bad[0]['path'])
